@@ -240,3 +240,78 @@ func uniqueValue(s *Src, v int) bool {
 	}
 	return n == 1
 }
+
+// C01.reentrant — the contract also holds when the producer is poked again from inside one of the observer's
+// own callbacks (an observer that, on completion, triggers something which makes the same producer emit):
+// a terminal notification that is being delivered already counts; what is emitted from inside it is late.
+// Lock-free constructors only (a blocking one would wait for its own caller).
+func init() {
+	Register(&Family{
+		Name:   "C01.reentrant",
+		Props:  []string{"C01"},
+		Weight: 1,
+		Gen: func(g *Gen) *Scn {
+			sc := &Scn{Family: "C01.reentrant"}
+			sc.Sub = g.Pick("unsafe", "eventually")
+			sc.Sources = []SrcSpec{{Mode: "manual", Ctor: sc.Sub}}
+			sc.SetInt("pre", g.Range(0, 2))      // values before the terminal
+			sc.SetInt("term", g.Intn(2))         // 0 complete, 1 error
+			sc.SetInt("inside", g.PickInt(1, 2)) // 1: emit from inside the terminal callback, 2: terminate from inside a Next callback
+			sc.SetInt("stage", g.Intn(3))        // 0 bare, 1 Map, 2 Tap downstream
+			sc.SetInt("raw", 1)
+			sc.SetInt("seqmode", 1)
+			return sc
+		},
+		Run: func(e *Env) {
+			sc := e.Sc
+			s := e.NewSrc(sc.Sources[0])
+			o := s.Obs()
+			switch sc.Int("stage", 0) {
+			case 1:
+				o = ro.Map(func(x int) int { return x })(o)
+			case 2:
+				o = ro.Tap(func(int) {}, func(error) {}, func() {})(o)
+			}
+			rec := e.NewRec("o")
+			poked := false
+			term := Step{K: "C"}
+			if sc.Int("term", 0) == 1 {
+				term = Step{K: "E", V: 1}
+			}
+			if sc.Int("inside", 1) == 1 {
+				rec.OnTermHook = func(r *Rec, k byte) {
+					if !poked {
+						poked = true
+						s.Push(Step{K: "N", V: 70})
+						s.Push(Step{K: "E", V: 2})
+						s.Push(Step{K: "C"})
+					}
+				}
+			} else {
+				rec.OnNextHook = func(r *Rec, v int) {
+					if !poked {
+						poked = true
+						s.Push(term)
+						s.Push(Step{K: "N", V: 71})
+					}
+				}
+			}
+			e.Subscribe(o, rec.Obs(), nil)
+			e.Settle()
+			done := false
+			e.Go("producer", func() {
+				for i := 0; i < sc.Int("pre", 0); i++ {
+					s.Push(Step{K: "N", V: 10 + i})
+				}
+				s.Push(term)
+				s.Push(Step{K: "N", V: 72})
+				done = true
+			})
+			e.Settle()
+			if e.K.Capped() || !done {
+				return
+			}
+			checkGrammar(e, rec)
+		},
+	})
+}
